@@ -1,4 +1,4 @@
-import BtcwVerif.Lemmas.AddrReach
+import BtcwVerif.Lemmas.AddrIdxRun
 /-!
 # C03 — every issued address is the seed's BIP32 child and the wallet can sign for it
 
@@ -254,6 +254,55 @@ theorem C03_loaded_is_issued (hd : HD K P) (hlaw : hd.Lawful) (hn : hd.NoHardPub
         simp [objOfHandle, bindH, alookup_aset, putSM, alloc]
 
 -- ---------------------------------------------------------------------------------------------------------
+-- indices over the whole history
+
+theorem runLog_fst (hd : HD K P) (ops : List (Op K P)) : (runLog hd ops).1 = (run Cfg.fixed hd ops).1 := by
+  rw [runLog_state, run_fst_eq]
+
+/-- **Indices are consecutive over the valid children, across the whole history.**  `(runLog hd ops).2` lists, in
+    issue order, every address object `nextAddresses` / `extendAddresses` allocated since the wallet was created —
+    through locks, unlocks, restarts, passphrase changes, imports, new accounts / scopes and watching-only
+    conversion.  For every account row and branch, the indices issued are exactly the valid children below the
+    row's stored next index, in strictly increasing order: they start at 0, skip invalid children only, never
+    repeat, and the stored next index is one past the last index issued (so the next call continues there). -/
+theorem C03_indices (hd : HD K P) (hlaw : hd.Lawful) (hn : hd.NoHardPub) (ops : List (Op K P)) (sc : Scope) (a : Nat)
+    (row : AcctRow K P) (hr : acctRow (run Cfg.fixed hd ops).1 sc a = some row) (int : Bool) :
+    IsValidRun (validAt hd (rowPub row) (branchOf int)) 0 (rowNext row int) (idxOf (runLog hd ops).2 sc a (branchOf int)) := by
+  obtain ⟨_, _, x⟩ := runLog_inv hlaw hn ops
+  rw [← runLog_fst] at hr
+  exact x.run sc a row hr int
+
+/-- no index is ever issued twice on a branch (corollary of `C03_indices`) -/
+theorem C03_indices_no_repeat (hd : HD K P) (hlaw : hd.Lawful) (hn : hd.NoHardPub) (ops : List (Op K P)) (sc : Scope) (a : Nat)
+    (row : AcctRow K P) (hr : acctRow (run Cfg.fixed hd ops).1 sc a = some row) (int : Bool) :
+    (idxOf (runLog hd ops).2 sc a (branchOf int)).Nodup :=
+  (C03_indices hd hlaw hn ops sc a row hr int).1.imp (fun h => Nat.ne_of_lt h)
+
+/-- every issued object belongs to an account that exists, on branch 0 or 1 — nothing else is in the log -/
+theorem C03_issued_known (hd : HD K P) (hlaw : hd.Lawful) (hn : hd.NoHardPub) (ops : List (Op K P)) (o : KeyObj K P)
+    (ho : o ∈ (runLog hd ops).2) : (acctRow (run Cfg.fixed hd ops).1 o.scope o.acct).isSome ∧ (o.branch = 0 ∨ o.branch = 1) := by
+  obtain ⟨_, _, x⟩ := runLog_inv hlaw hn ops
+  rw [← runLog_fst]
+  exact x.known o ho
+
+/-- the cached next indices of a loaded account always equal the stored ones (so a restart continues where the
+    running manager would have) -/
+theorem C03_next_index_cached (hd : HD K P) (hlaw : hd.Lawful) (hn : hd.NoHardPub) (ops : List (Op K P)) (sc : Scope) (a : Nat)
+    (ai : AcctInfo K P) (row : AcctRow K P) (hc : cacheAt (run Cfg.fixed hd ops).1 sc a = some ai)
+    (hr : acctRow (run Cfg.fixed hd ops).1 sc a = some row) :
+    ai.nextExt = rowNext row false ∧ ai.nextInt = rowNext row true := by
+  obtain ⟨_, _, x⟩ := runLog_inv hlaw hn ops
+  rw [← runLog_fst] at hc hr
+  exact x.next sc a ai row hc hr
+
+/-- what `nextAddresses` reports to its caller are exactly the objects it appended to the issue log, in order -/
+theorem C03_next_reports_issued (hd : HD K P) (hlaw : hd.Lawful) (hn : hd.NoHardPub) (ops : List (Op K P)) (sc : Scope)
+    (acct n : Nat) (int : Bool) (hb : Nat) (infos : List Info)
+    (hres : (opNext hd (run Cfg.fixed hd ops).1 sc acct n int hb).2.1 = .addrs infos) :
+    infos = (newObjs (run Cfg.fixed hd ops).1 (opNext hd (run Cfg.fixed hd ops).1 sc acct n int hb).1).map infoOfKey :=
+  opNext_reports (reach_inv hd hlaw hn ops) sc acct n int hb infos hres
+
+-- ---------------------------------------------------------------------------------------------------------
 -- re-creation from the same seed
 
 theorem foldl_state_indep (cfg : Cfg) (hd : HD K P) (ops : List (Op K P)) :
@@ -313,5 +362,10 @@ example : (match (step {} demoHD03 (run {} demoHD03
       [.create [0], .next (49, 0) 0 1 true 1, .restart, .unlock 0,
        .lookup (49, 0) (.key (.hd [0, 49 + H, 0 + H, 0 + H, 1, 0]) 0 true) 9]).1 (.privKey 9)).2.1 with
       | .key (.hd k) => k == [0, 49 + H, 0 + H, 0 + H, 1, 0] | _ => false) = true := by decide
+
+/-- non-vacuity of `C03_indices`: a history with a lock, a restart and an extension in between; the external branch
+    of account 0 of scope 84:0 has issued 0,1,2,3,4 and the stored next index is 5 -/
+example : idxOf (runLog demoHD03 [.create [0], .next (84, 0) 0 2 false 1, .unlock 0, .extend (84, 0) 0 2 false, .restart,
+      .next (84, 0) 0 2 false 5, .next (84, 0) 0 1 true 9]).2 (84, 0) 0 0 = [0, 1, 2, 3, 4] := by decide
 
 end AddrDerive
